@@ -42,6 +42,8 @@ func init() {
 		{WL: "opsim", Cfg: "prop=C17,stopat=wait", Quick: 300, Thor: 8000},
 		// the stop request races with start-up (queues still being created, hooks being enabled)
 		{WL: "opsim", Cfg: "prop=C17,stopduring=start,stopk=40", Quick: 300, Thor: 8000},
+		// the API server answers a list slowly (15-45 s) while bindings are being enabled; the stop arrives meanwhile
+		{WL: "opsim", Cfg: "prop=C17,stopk=300,slowlist=1", Quick: 200, Thor: 6000},
 	}
 	plans["C18"] = []Part{
 		{WL: "opsim", Cfg: "prop=C18", Quick: 400, Thor: 10000},
@@ -58,6 +60,8 @@ func init() {
 	}
 	plans["C04"] = []Part{
 		{WL: "opsim", Cfg: "prop=C04", Quick: 400, Thor: 8000},
+		// hooks that also serve admission webhooks: requests arrive while a failed queued task waits for its retry
+		{WL: "admission", Cfg: "prop=C04", Quick: 150, Thor: 4000},
 	}
 	plans["C06"] = []Part{
 		{WL: "opsim", Cfg: "prop=C06", Quick: 250, Thor: 6000},
@@ -101,6 +105,7 @@ func presetFor(prop string) opsimOpts {
 	case "C03":
 		o.Slow, o.MaxHooks, o.Sched = true, 3, 60
 	case "C04", "C07":
+		o.Settings = prop == "C07" // rate-limited hooks: tasks arrive while the head task waits for the limiter
 		o.FailPct, o.Sched, o.StartupFail = 40, 40, true
 		o.MaxKube, o.Writes, o.Slow04 = 3, 20, true
 		o.Patches = prop == "C04"
@@ -489,6 +494,10 @@ func runOpsimWL(e *Env) {
 	}
 
 	nsRemoval := e.CfgIs("nsdel", "1")
+	if e.CfgIs("slowlist", "1") {
+		api.SlowList[[]string{"pods", "configmaps"}[fl.Choose(2)]] = 1 + fl.Choose(2)
+		api.SlowListDur = time.Duration(15+fl.Choose(30)) * time.Second
+	}
 	stopDuringStart := e.CfgIs("stopduring", "start")
 	mutDone, settled, settling := false, false, false
 	shutdownReturned, shutdownCalled, shutdownHung := false, false, false
@@ -702,6 +711,7 @@ func runOpsimWL(e *Env) {
 		oracleC04(r)
 		oracleC07op(r)
 		oracleC07sync(r)
+		oracleC07adjacent(r)
 		oracleC06(r)
 		oracleC02(r)
 		oracleC01(r)
